@@ -682,11 +682,9 @@ class _TftpReadRequest:
             options[OPTION_BLOCK_SIZE]
         ):
             requested_block_size = int(options[OPTION_BLOCK_SIZE])
-            if max_block_size >= requested_block_size >= MIN_BLOCK_SIZE:
-                supported_options[OPTION_BLOCK_SIZE] = str(
-                    requested_block_size
-                )
-                self._block_size = requested_block_size
+            if requested_block_size >= MIN_BLOCK_SIZE:
+                self._block_size = min(requested_block_size, max_block_size)
+                supported_options[OPTION_BLOCK_SIZE] = str(self._block_size)
         # For the timeout option, we may only accept the option as suggested by
         # the client or reject it all together. Sending a smaller value back to
         # the client is not allowed by the specification.
